@@ -175,6 +175,22 @@ CHECKS["C18"] = dict(
 
 NOT_YET = {}
 
+# scenarios added in the late rounds of seeded changes (11 to 15)
+LATE = {
+    "C02": "exception classes that compose their text in __str__ (message of the replayed memoized-exception); strings with \\r\\n / \\r / other line separators; arrays compared type-strictly (a memory map is not an ndarray).",
+    "C05": "two calls under one override key with metadata stored with the data object; the identical result object memoized again (memento read through the cache); metadata keys that are prefixes of each other toggled between plain and stored-with-data.",
+    "C12": "versions containing '#' on functions declared in dependencies=[...]; modifier clones of external stubs (versions containing '::'); a callee that loses its decorator but keeps its name; the name without its version.",
+    "C13": "module variables as defaults of keyword-only parameters; a plain helper of another package given the memento decorator (first definition under that name).",
+    "C14": "hidden calls back to a function already executing up the stack; a refused hidden call repeated without forgetting.",
+    "C15": "batch elements naming an undeclared keyword.",
+    "C16": "context arguments re-attached to a function that already carries Python-equal ones of another type; calls under context arguments forgotten through their memento.",
+    "C17": "own values equal for Python to the parent's but of another type; on-disk partitions with many equal-sized own values; an own partition that was itself read back from the store.",
+    "C18": "repository names repeated across prepend_repo / append_repo; the same template file loaded first with other parameters.",
+    "C19": "a store whose result data object is missing, read through the read-only backend; a null-runner cluster's function called from inside a local-runner memento function.",
+}
+for _p, _t in LATE.items():
+    CHECKS[_p]["text"] = CHECKS[_p]["text"].rstrip() + " Late rounds: " + _t
+
 
 def main():
     props = [json.loads(l) for l in open(os.path.join(VERIF, "properties.jsonl"))]
